@@ -113,6 +113,10 @@ def unknown_names(sh, fa_fp, algos, rng):
              "shake_128x", "none", "null", "md5 ", " md5", "md5\n", "MD5\x00", "rabin", "CRC-64-AVRO "]
     for a in list(algos):
         cands += [a.upper(), a.title(), a.replace("_", "-"), a + "x", a[:-1]]
+    # what the local hashlib / OpenSSL happens to offer beyond the advertised set is unknown too
+    cands += sorted(set(hashlib.algorithms_available) - known)
+    # names that upset string formatting of the error message
+    cands += ["sha%d", "%s", "md5%s", "%(alg)s", "{}", "{0}", "{algorithm}", "%", "100%", "%%", "sha\\256", "a" * 5000]
     for _ in range(20):
         cands.append("".join(rng.choice("abcdefXYZ-_0123456789") for _ in range(rng.randint(1, 10))))
     for name in cands:
